@@ -1531,6 +1531,79 @@ def c08(case):
 
 
 # ---------------------------------------------------------------------------
+# preprocessing of whole descriptions (Preprocess.tla)
+
+_PP_PM = "of the 5th P.M."
+
+
+def _pp_atom(k, t=0, ns="", r=0, ew="", tm="", x=""):
+    return {"k": k, "t": t, "ns": ns, "r": r, "ew": ew, "tm": tm, "x": x}
+
+
+def pp_lex(text, fills):
+    """Read a preprocessed text back as the atoms of spec/Preprocess.tla (anything unexpected is one 'junk' atom)."""
+    out, i, n = [], 0, len(text)
+    by_fill = sorted(fills.items(), key=lambda kv: -len(kv[1]))
+    while i < n:
+        m = _TR_CANON.match(text, i)
+        if m and not (m.end() < n and text[m.end()].isalnum()):
+            t_, ns, r_, ew = _tr_tuple(m)
+            out.append(_pp_atom("canon", t_, ns, r_, ew))
+            i = m.end()
+            continue
+        hit = False
+        for fid, ftxt in by_fill:
+            if text.startswith(ftxt, i):
+                out.append(_pp_atom("fill", int(fid)))
+                i += len(ftxt)
+                hit = True
+                break
+        if hit:
+            continue
+        if text.startswith(_PP_PM, i):
+            out.append(_pp_atom("pm"))
+            i += len(_PP_PM)
+        elif text[i] == " ":
+            out.append(_pp_atom("sp"))
+            i += 1
+        elif text[i] == "\n":
+            out.append(_pp_atom("nl"))
+            i += 1
+        elif text[i] in ".:,;-":
+            out.append(_pp_atom("p", x=text[i]))
+            i += 1
+        else:
+            if not out or out[-1]["k"] != "junk":
+                out.append(_pp_atom("junk"))
+            i += 1
+    return out
+
+
+def c08_doc(case):
+    import pytrs
+    a = case["args"]
+    text, dns, dew = a["text"], a["dflt"]["ns"].lower(), a["dflt"]["ew"].lower()
+    try:
+        d = pytrs.PLSSDesc(text, config="%s,%s" % (dns, dew))
+        pp = d.pp_desc
+        found = pytrs.find_twprge(text, preprocess=True, default_ns=dns, default_ew=dew)
+        fnd = []
+        for f in found:
+            m = _TR_CANON.fullmatch(f)
+            fnd.append(_tr_tuple(m) if m else [0, "?", 0, "?"])
+        leftovers = pytrs.find_twprge(_TR_CANON.sub(" ", pp))
+        trs = []
+        for t in d.tracts:
+            m = _TR_SHORT.fullmatch(t.twprge)
+            trs.append(_tr_tuple(m) if m else [0, "?", 0, "?"])
+        again = pytrs.PLSSDesc(pp, config="%s,%s" % (dns, dew)).pp_desc == pp
+        return {"exc": "none", "obs": pp_lex(pp, a["fills"]), "found": fnd, "tracts": trs, "leftover": bool(leftovers),
+                "again": again, "pp_text": pp[:300]}
+    except Exception as e:  # noqa
+        return _exc(e)
+
+
+# ---------------------------------------------------------------------------
 # conformance with the marker-walk model (PlssWalk.tla)
 
 def plss_walk(case):
